@@ -16,6 +16,7 @@
 #include <cstring>
 #include <system_error>
 
+extern "C" char __executable_start;
 namespace vsim
 {
 namespace
@@ -53,6 +54,8 @@ struct Task
   uint64_t stall_until = 0;
   uint64_t npoints     = 0;
   uint64_t ntimer      = 0;  // W_STALL: released when S.points reaches this
+  int guard_depth      = 0;  // inside the initialiser of a function-local static (real lock held)
+  int cp               = 0;  // call-boundary preemption enabled while cp + (harness ? 0 : 1) > 0
 };
 
 struct Sim
@@ -80,6 +83,9 @@ struct Sim
   size_t replay_pos   = 0;
   std::vector<std::pair<uint32_t, uint32_t>> rec;
   uint64_t fired[D_NDRAWS] = {};
+  uint64_t calls = 0;
+  int64_t call_left = 0;
+  std::vector<void *> call_sites;
   uint64_t timer_jumps     = 0;
   // strategy state
   std::vector<uint64_t> pct_points;
@@ -88,6 +94,7 @@ struct Sim
   int avoid_left  = 0;
   int stalls      = 0;
   int nstalled    = 0;
+  bool solo       = false;  // forked child of a run: the calling task is the only one left
   std::atomic<uint32_t> done_futex{0};
 };
 
@@ -372,6 +379,8 @@ Task *next_runnable(Task *me)
 
 void block(Task *me, int wkind, const void *obj, int64_t deadline)
 {
+  if (S.solo)
+    _exit(99);  // nobody is left to release the caller
   me->st        = BLOCKED;
   me->wkind     = wkind;
   me->wobj      = obj;
@@ -475,6 +484,9 @@ RunResult snapshot()
   r.tasks       = (int)S.tasks.size();
   r.drained     = S.drain;
   r.timer_jumps = S.timer_jumps;
+  r.calls       = S.calls;
+  for (void *p : S.call_sites)
+    r.call_sites.push_back((uint64_t)((char *)p - &__executable_start));
   for (int i = 0; i < D_NDRAWS; ++i)
     r.fired[i] = S.fired[i];
   r.decisions = S.rec;
@@ -505,12 +517,16 @@ RunResult run(const RunConfig &cfg, const std::function<void()> &root)
   S.rec.clear();
   memset(S.fired, 0, sizeof S.fired);
   S.timer_jumps = 0;
+  S.calls       = 0;
+  S.call_left   = cfg.call_period;
+  S.call_sites.clear();
   S.pct_points.clear();
   S.pct_low    = 0;
   S.burst_left = 0;
   S.avoid_left = 0;
   S.stalls     = 0;
   S.nstalled   = 0;
+  S.solo       = false;
   S.done_futex.store(0);
   if (cfg.strategy == S_PCT)
   {
@@ -618,7 +634,7 @@ uint64_t self_timer_wakes() noexcept
 static void point_impl(Kind k, uint32_t obj, bool yielding) noexcept
 {
   Task *me = tl;
-  if (!me)
+  if (!me || S.solo)
     return;
   S.points++;
   S.consec++;
@@ -684,6 +700,68 @@ static void point_impl(Kind k, uint32_t obj, bool yielding) noexcept
 void point(Kind k, uint32_t obj) noexcept
 {
   point_impl(k, obj, false);
+}
+
+// Call-boundary preemption. The SDK and the scenarios are compiled with
+// -finstrument-functions (functions defined under /usr and /verif excluded), so every entry to
+// and exit from a function *defined in the repository* - including the inline functions of
+// the API headers - calls one of the two hooks below. Each cfg.call_period-th boundary crossed
+// by the running task is a candidate; a candidate becomes a schedule point at which the
+// caller is demoted (somebody else runs if anybody can) when the decision stream says so.
+// This is what makes code between two synchronisation operations interruptible: a narrowed
+// or removed lock around plain data is then observable by its effect.
+// Never inside the initialiser of a function-local static: the C++ runtime holds a real
+// lock there, a second task entering the same initialiser would block for real.
+static void call_boundary(void *fn) noexcept
+{
+  Task *me = tl;
+  if (!me || S.cfg.call_period <= 0 || S.cur != me || S.solo)
+    return;
+  // only while the task executes code of the repository: harness tasks between entering and
+  // leaving an API operation (hz::InOp), tasks created by the SDK always, minus harness
+  // callbacks (hz::HarnessCode). One-time initialisation (function-local statics) is neither
+  // counted nor preempted, so the count does not depend on what ran earlier in the process.
+  if (me->cp + (me->harness ? 0 : 1) <= 0 || me->guard_depth > 0)
+    return;
+  S.calls++;
+  static FILE *dbg = getenv("VSIM_CALLTRACE") ? fopen(getenv("VSIM_CALLTRACE"), "w") : nullptr;
+  if (dbg)
+  {
+    if (S.calls == 1)
+      fprintf(dbg, "RUN\n");
+    fprintf(dbg, "%d %lx\n", me->id, (unsigned long)((char *)fn - &__executable_start));
+  }
+  if (--S.call_left > 0)
+    return;
+  S.call_left = S.cfg.call_period;
+  if (S.drain || me->st != RUNNABLE)
+    return;
+  uint32_t c = decide(D_CALL, 2,
+                      [&]() -> uint32_t { return S.rng.chance(S.cfg.p_call) ? 1 : 0; });
+  if (!c)
+    return;
+  S.call_sites.push_back(fn);
+  point_impl(K_CALL, (uint32_t)S.calls, true);
+}
+int call_points_add(int delta) noexcept
+{
+  if (!tl)
+    return 0;
+  tl->cp += delta;
+  return tl->cp;
+}
+int call_points_set(int v) noexcept
+{
+  if (!tl)
+    return 0;
+  int old = tl->cp;
+  tl->cp  = v;
+  return old;
+}
+void static_guard(int delta) noexcept
+{
+  if (tl)
+    tl->guard_depth += delta;
 }
 
 void yield_now() noexcept
@@ -891,6 +969,34 @@ int64_t peek_now_ns() noexcept
   return S.now;
 }
 
+// Simulated fork(): the calling task forks the process for real. In the child it is the only
+// thread left; it keeps running without schedule points (nothing else can run) and must not
+// block. Returns what fork() returned.
+int fork_task() noexcept
+{
+  fflush(stdout);
+  fflush(stderr);
+  // the at-fork handlers of the code under test run inside fork(), in the child too: the
+  // child must already be in solo mode then (the allocator's list lock has at-fork handlers of
+  // its own, sim/alloc.cc)
+  S.solo = true;
+  int pid = (int)::fork();
+  if (pid == 0)
+    alarm(10);
+  else
+    S.solo = false;
+  if (pid == 0)
+  {
+  }
+  else if (pid > 0 && tl)
+  {
+    // what the child's random_device reads is entropy the parent never sees again
+    for (int i = 0; i < 64; ++i)
+      S.ent.next();
+  }
+  return pid;
+}
+
 uint64_t entropy() noexcept
 {
   if (!tl)
@@ -930,3 +1036,30 @@ void reset_probes()
 }
 
 }  // namespace vsim
+
+extern "C" {
+void __cyg_profile_func_enter(void *fn, void *) { vsim::call_boundary(fn); }
+void __cyg_profile_func_exit(void *fn, void *) { vsim::call_boundary(fn); }
+// function-local static initialisation (linked with -Wl,--wrap): no call-boundary preemption
+// while the runtime's guard lock is held
+int __real___cxa_guard_acquire(void *);
+void __real___cxa_guard_release(void *);
+void __real___cxa_guard_abort(void *);
+int __wrap___cxa_guard_acquire(void *g)
+{
+  int r = __real___cxa_guard_acquire(g);
+  if (r)
+    vsim::static_guard(+1);
+  return r;
+}
+void __wrap___cxa_guard_release(void *g)
+{
+  vsim::static_guard(-1);
+  __real___cxa_guard_release(g);
+}
+void __wrap___cxa_guard_abort(void *g)
+{
+  vsim::static_guard(-1);
+  __real___cxa_guard_abort(g);
+}
+}
